@@ -164,6 +164,11 @@ FILTER_CASES = [
     (True, [(1, '.EQ.', 'abc'), (1, '.NEN.', '7')]), (True, [(1, '.EQ.', 'abc'), (1, '>=', '7'), (2, '.EQ.', 'y')]),
     (True, [(2, '.EQ.', 'z'), (1, '.LT.', '2')]), (True, [(1, '.EQ.', 'abc'), (0, '.GE.', '4'), (1, '.GT.', '1.5')]),
     (False, [(2, '.EQ.', 'x')]), (False, [(2, '.NE.', 'z')]),
+    # several numeric filters on ONE column; an earlier filter removes records from the middle of the file
+    (True, [(1, '.EQ.', 'abc'), (1, '.LT.', '2'), (1, '.GT.', '5')]),
+    (True, [(1, '.EQ.', 'abc'), (1, '.EQN.', '2'), (1, '.GE.', '7'), (1, '<', '0')]),
+    (True, [(1, '.EQ.', 'abc'), (0, '.EQN.', '2'), (0, '.GT.', '5'), (0, '.LT.', '4')]),
+    (True, [(1, '.EQ.', 'abc'), (1, '.GT.', '1.5'), (1, '.LT.', '1')]),
 ]
 
 
